@@ -12,27 +12,26 @@ FILES = [
     "iosizer/iosizer.go",
 ]
 
-# location-name prefix -> free-running -race workload (harness/racex) exercising that type
+# location-name prefix (longest match) -> free-running -race workloads (harness/racex) exercising that type
 RACE_TESTS = {
-    "broadcast.": "TestRace_Broadcast",
-    "csync.Mutex": "TestRace_CsyncMutex",
-    "csync.RWMutex": "TestRace_CsyncRWMutex",
-    "ccontainer.": "TestRace_CContainer",
-    "ccall.": "TestRace_CallConcurrently",
-    "conc.": "TestRace_ConcurrentQueue",
-    "cqueue.": "TestRace_AtomicLIFO",
-    "linkedlist.": "TestRace_LinkedList",
-    "keyed.KeyedRef": "TestRace_KeyedRefCount",
-    "keyed.": "TestRace_Keyed",
-    "routine.StateRoutineContainer": "TestRace_StateRoutineContainer",
-    "routine.": "TestRace_RoutineContainer",
-    "refcount.": "TestRace_RefCount",
-    "promise.PromiseContainer": "TestRace_PromiseContainer",
-    "promise.Once": "TestRace_Once",
-    "promise.": "TestRace_Promise",
-    "memo.": "TestRace_MemoizeFunc",
-    "iocloser.": "TestRace_IOCloser",
-    "iosizer.": "TestRace_SizeReadWriter",
+    "broadcast.": ["TestRace_Broadcast"],
+    "csync.Mutex": ["TestRace_CsyncMutex"],
+    "csync.RWMutex": ["TestRace_CsyncRWMutex"],
+    "ccontainer.": ["TestRace_CContainer"],
+    "ccall.": ["TestRace_CallConcurrently"],
+    "conc.": ["TestRace_ConcurrentQueue"],
+    "cqueue.": ["TestRace_AtomicLIFO"],
+    "linkedlist.": ["TestRace_LinkedList"],
+    "keyed.KeyedRef": ["TestRace_KeyedRefCount"],
+    "keyed.": ["TestRace_Keyed", "TestRace_KeyedRefCount"],
+    "routine.": ["TestRace_RoutineContainer", "TestRace_StateRoutineContainer"],
+    "refcount.": ["TestRace_RefCount"],
+    "promise.PromiseContainer": ["TestRace_PromiseContainer"],
+    "promise.Once": ["TestRace_Once"],
+    "promise.": ["TestRace_Promise", "TestRace_PromiseContainer", "TestRace_Once"],
+    "memo.": ["TestRace_MemoizeFunc"],
+    "iocloser.": ["TestRace_IOCloser"],
+    "iosizer.": ["TestRace_SizeReadWriter"],
 }
 
 PARTIAL = ("PARTIAL BY NATURE: (1) the translator /verif/lockscan is trusted (that every execution of every client program "
